@@ -65,9 +65,11 @@ class pyparsing_test:
             else:
                 self._save_context["packrat_cache_size"] = None
             self._save_context["packrat_parse"] = ParserElement._parse
+            self._save_context["packrat_cache"] = ParserElement.packrat_cache
             self._save_context["recursion_enabled"] = (
                 ParserElement._left_recursion_enabled
             )
+            self._save_context["recursion_memos"] = ParserElement.recursion_memos
 
             self._save_context["__diag__"] = {
                 name: getattr(__diag__, name) for name in __diag__._all_names
@@ -99,14 +101,13 @@ class pyparsing_test:
             for name, value in self._save_context["__diag__"].items():
                 (__diag__.enable if value else __diag__.disable)(name)
 
-            ParserElement._packratEnabled = False
-            if self._save_context["packrat_enabled"]:
-                ParserElement.enable_packrat(self._save_context["packrat_cache_size"])
-            else:
-                ParserElement._parse = self._save_context["packrat_parse"]
+            ParserElement._packratEnabled = self._save_context["packrat_enabled"]
+            ParserElement.packrat_cache = self._save_context["packrat_cache"]
+            ParserElement._parse = self._save_context["packrat_parse"]
             ParserElement._left_recursion_enabled = self._save_context[
                 "recursion_enabled"
             ]
+            ParserElement.recursion_memos = self._save_context["recursion_memos"]
 
             __compat__.collect_all_And_tokens = self._save_context["__compat__"][
                 "collect_all_And_tokens"
